@@ -301,6 +301,8 @@ class BasisSHO(BasisSet):
                     - self.op_mat(r"b^\dagger b^\dagger")
                     - self.op_mat(r"b b^\dagger")
                     + self.op_mat(r"b^\dagger b"))
+            if self.dvr:
+                mat = self.dvr_v.T @ mat @ self.dvr_v
             # x = y + x0
             mat = mat + self.x0 * self.op_mat("p")
 
@@ -313,6 +315,8 @@ class BasisSHO(BasisSet):
                     - self.op_mat(r"b^\dagger b^\dagger")
                     + self.op_mat(r"b b^\dagger")
                     - self.op_mat(r"b^\dagger b"))
+            if self.dvr:
+                mat = self.dvr_v.T @ mat @ self.dvr_v
             # x = y + x0
             mat = mat + self.x0 * self.op_mat("p")
 
